@@ -1,6 +1,7 @@
 package sym
 
 import (
+	"golang.org/x/text/unicode/norm"
 	"fmt"
 	"math"
 	"go/types"
@@ -17,12 +18,63 @@ func registerMiscModels(ex *Exec) {
 	ident := func(ex *Exec, s *State, cc *ssa.CallCommon, a []Value) (Value, *Fork, error) { return a[0], nil, nil }
 	// Unicode normalisation: the identity on ASCII (all normalisation forms leave ASCII unchanged);
 	// non-ASCII input is outside the modelled fragment
+	// Concrete (constant) stretches are normalised natively with the same golang.org/x/text version the
+	// repository uses. For the decomposing forms NFD/NFKD a string is normalised stretch by stretch:
+	// symbolic bytes must be ASCII (checked), ASCII characters are starters that never change and never
+	// reorder with their neighbours, so NFKD(s) is the concatenation of the unchanged symbolic bytes and
+	// the normalised constant stretches. The composing forms need an all-ASCII or all-constant string.
 	m["(golang.org/x/text/unicode/norm.Form).String"] = func(ex *Exec, s *State, cc *ssa.CallCommon, a []Value) (Value, *Fork, error) {
 		sv := a[1].(StringV)
-		if err := ex.requireASCII(s, sv.B, "norm.Form.String"); err != nil {
-			return nil, nil, err
+		allASCII := true
+		for _, b := range sv.B {
+			if b.IsConst() && b.U >= 0x80 {
+				allASCII = false
+			}
 		}
-		return sv, nil, nil
+		if allASCII {
+			if err := ex.requireASCII(s, sv.B, "norm.Form.String"); err != nil {
+				return nil, nil, err
+			}
+			return sv, nil, nil
+		}
+		ft, ok := a[0].(*Term)
+		if !ok || !ft.IsConst() {
+			return nil, nil, unsupported("norm.Form.String with a symbolic form")
+		}
+		form := norm.Form(ft.U)
+		var sym []*Term
+		for _, b := range sv.B {
+			if !b.IsConst() {
+				sym = append(sym, b)
+			}
+		}
+		if len(sym) > 0 {
+			if form != norm.NFD && form != norm.NFKD {
+				return nil, nil, unsupported("composing normalisation form on a partly symbolic non-ASCII string")
+			}
+			if err := ex.requireASCII(s, sym, "norm.Form.String"); err != nil {
+				return nil, nil, err
+			}
+		}
+		var out []*Term
+		for i := 0; i < len(sv.B); {
+			if !sv.B[i].IsConst() {
+				out = append(out, sv.B[i])
+				i++
+				continue
+			}
+			j := i
+			var seg []byte
+			for j < len(sv.B) && sv.B[j].IsConst() {
+				seg = append(seg, byte(sv.B[j].U))
+				j++
+			}
+			for _, c := range []byte(form.String(string(seg))) {
+				out = append(out, ex.Ctx.BV(8, uint64(c)))
+			}
+			i = j
+		}
+		return StringV{B: out}, nil, nil
 	}
 	m["internal/stringslite.Clone"] = ident
 	m["strings.Clone"] = ident
